@@ -62,6 +62,14 @@ class N(Config):
     d: Param[int] = 1
     p: Annotated[Path, pathgenerator("out")]
 
+    def __len__(self):
+        """collection-like configuration: the number of members of `cs` (so an N without
+        members is falsy - validation must not depend on the truth value of a configuration)"""
+        try:
+            return len(self.__xpm__.values.get("cs") or [])
+        except AttributeError:
+            return 0
+
 
 class N1(N):
     z: Param[int]
